@@ -2,7 +2,11 @@
 
 package service
 
-import "github.com/mdzio/go-mqtt/message"
+import (
+	"fmt"
+
+	"github.com/mdzio/go-mqtt/message"
+)
 
 // C01: a publish reaches exactly the clients whose current subscriptions match it.
 
@@ -111,4 +115,71 @@ func H01_fanout() {
 	vrtCheckDelivery("inproc", in.take(), vrtAnd(holdI, specMatch(FI, T)), T, payload, specMinQos(p, qi))
 	vrtObserve("fanout", len(ga), len(gb))
 	vrtReach("C01.published")
+}
+
+// H01_failing_subscriber: one matching subscriber cannot be delivered to (an
+// in-process callback that returns an error, or a client whose write side is
+// broken while its read side is still up); every other matching subscriber -
+// before or behind it in the list - still receives the message exactly once.
+func H01_failing_subscriber() {
+	b := vrtBroker("mockSuccess")
+	failing := vrtNewInproc()
+	failing.fn = func(m *message.PublishMessage) error { return fmt.Errorf("subscriber failed") }
+	brokenClient := vrtBool("broken_client")
+	var o *vrtConn
+	subscribeFailing := func() {
+		if brokenClient {
+			o, _ = b.connect(vrtConnectPkt([]byte("o"), true))
+			vrtExchange(o, &specPkt{Typ: specSUBSCRIBE, ID: 1, Topics: [][]byte{[]byte("t")}, QoS: []byte{1}})
+		} else {
+			b.svr.Subscribe("t", 1, &failing.fn)
+		}
+	}
+	first := vrtBool("failing_subscribes_first")
+	if first {
+		subscribeFailing()
+	}
+	a, _ := b.connect(vrtConnectPkt([]byte("a"), true))
+	vrtExchange(a, &specPkt{Typ: specSUBSCRIBE, ID: 1, Topics: [][]byte{[]byte("t")}, QoS: []byte{1}})
+	in := vrtNewInproc()
+	b.svr.Subscribe("t", 1, &in.fn)
+	if !first {
+		subscribeFailing()
+	}
+	if brokenClient {
+		o.mu.Lock()
+		o.failWrites = true
+		o.mu.Unlock()
+		vrtExchange(o, &specPkt{Typ: specPINGREQ}) // the answer cannot be written: the sender gives up, the outgoing ring is closed
+		vrtAssert("C01.harness_broken_client_still_connected", !o.isClosed())
+	}
+	p, _ := b.connect(vrtConnectPkt([]byte("p"), true))
+	a.peerTake()
+	in.take()
+	q := vrtByte("q")
+	vrtAssume(q <= 2)
+	viaServer := vrtBool("server_publish")
+	if viaServer {
+		m := message.NewPublishMessage()
+		m.SetTopic([]byte("t"))
+		m.SetPayload([]byte("x"))
+		m.SetQoS(q)
+		b.svr.Publish(m)
+		vrtQuiesce()
+	} else {
+		pk := &specPkt{Typ: specPUBLISH, Flags: q << 1, Topic: []byte("t"), Payload: []byte("x")}
+		if q > 0 {
+			pk.ID = 5
+		}
+		vrtExchange(p, pk)
+		if q == 2 {
+			vrtExchange(p, &specPkt{Typ: specPUBREL, ID: 5})
+		}
+	}
+	got, ok := vrtParse(a.peerTake())
+	vrtAssert("C01.stream_wellformed", ok)
+	vrtCheckDelivery("behind_failing", got, true, []byte("t"), []byte("x"), specMinQos(q, 1))
+	vrtCheckDelivery("inproc_behind_failing", in.take(), true, []byte("t"), []byte("x"), specMinQos(q, 1))
+	vrtAssert("C01.publisher_unaffected", !p.isClosed())
+	vrtReach("C01.failing_subscriber")
 }
